@@ -69,14 +69,21 @@ def main():
                 meta["detected_by_quick_checks"] = sorted(c for c, rc in rcs.items() if rc == 1)
                 meta["failing_clauses"] = sorted({c + ": " + x for c, xs in clauses.items() for x in xs if rcs[c] == 1})
                 json.dump(meta, open(mp, "w"), indent=1)
-    if not a.only:
-        head = subprocess.check_output(["git", "-C", a.base, "rev-parse", "--short", "HEAD"], text=True).strip()
-        with open(os.path.join(HERE, "seeded", "SWEEP.md"), "w") as f:
-            f.write("# Seeded changes against the %s checks (repository HEAD %s)\n\n" % (a.tier, head))
-            f.write("| change | verdict | checks (exit code) | failing clauses |\n|---|---|---|---|\n")
-            for name, verdict, rcs, clauses in rows:
-                cl = "; ".join(sorted({x for c, xs in clauses.items() for x in xs}))[:300]
-                f.write("| %s | %s | %s | %s |\n" % (name, verdict, " ".join("%s=%d" % kv for kv in sorted(rcs.items())), cl))
+    head = subprocess.check_output(["git", "-C", a.base, "rev-parse", "--short", "HEAD"], text=True).strip()
+    path = os.path.join(HERE, "seeded", "SWEEP.md")
+    table = {}
+    if a.only and os.path.exists(path):         # a partial sweep replaces only its own rows
+        for line in open(path):
+            if line.startswith("| ") and not line.startswith("| change") and not line.startswith("|---"):
+                table[line.split("|")[1].strip()] = line
+    for name, verdict, rcs, clauses in rows:
+        cl = "; ".join(sorted({x for c, xs in clauses.items() for x in xs}))[:300]
+        table[name] = "| %s | %s | %s | %s |\n" % (name, verdict, " ".join("%s=%d" % kv for kv in sorted(rcs.items())), cl)
+    with open(path, "w") as f:
+        f.write("# Seeded changes against the %s checks (repository HEAD %s at the last sweep)\n\n" % (a.tier, head))
+        f.write("| change | verdict | checks (exit code) | failing clauses |\n|---|---|---|---|\n")
+        for name in sorted(table):
+            f.write(table[name])
     missed = [r[0] for r in rows if r[1] != "DETECTED"]
     print("%d changes, %d detected, not detected: %s" % (len(rows), len(rows) - len(missed), missed or "none"))
 
